@@ -70,7 +70,7 @@ def build(cls, prm, P, scale_axes, dim, planeStress, voigt=True):
 
     a1 = np.array([float(P[i][0]) for i in range(3)]) * scale_axes[0]
     a2 = np.array([float(P[i][1]) for i in range(3)]) * scale_axes[1]
-    p = {k: float(v) for k, v in prm.items()}
+    p = {k: (v if isinstance(v, np.ndarray) else float(v)) for k, v in prm.items()}
     E = Models.Elastic
     if cls == "Isotropic":
         return E.Isotropic(dim, planeStress=planeStress, **p)
@@ -100,6 +100,47 @@ def cases():
                             continue
                         out.append(dict(id=f"{cls}{ip}/{fname}/{dim}D{'ps' if ps and dim == 2 else ''}/axes{sc[0]}x{sc[1]}", cls=cls, prm=prm, frame=fname, P=P, dim=dim, planeStress=bool(ps), scale=sc))
     return out
+
+
+def field_laws(ctx):
+    """heterogeneous parameters (one value per element, one per Gauss point) with rotated material axes: the law at each
+    element / point equals the homogeneous law built from that element's values in the same frame (whose compliance TLC judges)"""
+    from EasyFEA import Models
+
+    Ne, nPg = 3, 2
+    scal_e = np.array([1.0, 1.25, 0.75])
+    scal_ep = scal_e[:, None] * np.array([1.0, 1.1])[None, :]
+    n = 0
+    for cls in ("TransverselyIsotropic", "Orthotropic"):
+        prm = PARAMS[cls][0]
+        stiff = [k for k in prm if k[0] in "EG"]  # moduli are scaled, Poisson ratios kept: admissibility is preserved
+        for fname, P in FRAMES.items():
+            for dim, ps in ((3, False), (2, True), (2, False)):
+                for shape, sc in (("Ne", scal_e), ("Ne,nPg", scal_ep)):
+                    pf = {k: (float(v) * sc if k in stiff else float(v)) for k, v in prm.items()}
+                    try:
+                        m = build(cls, pf, P, (1.0, 1.0), dim, ps)
+                        C = np.asarray(m.C, dtype=float)
+                        S = np.asarray(m.S, dtype=float)
+                    except Exception as ex:
+                        ctx.violation(f"field-raises/{cls}/{fname}", f"{cls} with {shape} parameter fields, frame {fname}, dim {dim}: {type(ex).__name__}: {ex}", {"cls": cls, "frame": fname})
+                        continue
+                    for e in range(Ne):
+                        for pg in range(nPg if shape == "Ne,nPg" else 1):
+                            f = sc[e, pg] if shape == "Ne,nPg" else sc[e]
+                            mh = build(cls, {k: (float(v) * f if k in stiff else float(v)) for k, v in prm.items()}, P, (1.0, 1.0), dim, ps)
+                            Ch, Sh = np.asarray(mh.C, dtype=float), np.asarray(mh.S, dtype=float)
+                            Ce = C[e, pg] if shape == "Ne,nPg" else C[e]
+                            Se = S[e, pg] if shape == "Ne,nPg" else S[e]
+                            n += 1
+                            if np.abs(Ce - Ch).max() > 1e-10 * np.abs(Ch).max() or np.abs(Se - Sh).max() > 1e-10 * np.abs(Sh).max():
+                                ctx.violation(f"field-law/{cls}/{fname}/{dim}D", f"{cls} ({shape} parameter fields, frame {fname}, {dim}D{' plane stress' if ps else ''}): the law at element {e} differs from the homogeneous law built from that element's values in the same frame (max relative {np.abs(Ce - Ch).max() / np.abs(Ch).max():.3g})", {"cls": cls, "frame": fname, "dim": dim})
+                                break
+                        else:
+                            continue
+                        break
+    ctx.count(n, distinct_key=("field-laws",))
+    ctx.section("field_laws", comparisons=n)
 
 
 def param_cache_replay(ctx):
@@ -269,5 +310,6 @@ def run(ctx):
     ctx.sample({"id": recs[5]["id"], "Sobs_row1": recs[5]["Sobs"][0]})
     ctx.cov["exhaustive"] = True
     param_cache_replay(ctx)
+    field_laws(ctx)
     ctx.cov["rule"] = "every (law class, parameter set, rational frame incl. out-of-plane and compound rotations, axis lengths, 3D / plane stress / plane strain) case judged exactly by TLC on the reported compliance; distinct = cases"
     ctx.assume("compliance entries are snapped to rationals with denominator <= 1e6 within 1e-11 relative; plane strain is judged numerically (1e-10) against the inverse of the exact compliance")
